@@ -48,7 +48,7 @@ class C05(Check):
         design_ref="DESIGN.md §5 C05, §4 M5/M7",
         note="modelled, not verified: the hydraulic solve (conditions are evaluated on whatever the real solver produced), IEEE rounding; "
         "rules are out of scope (simple controls only; rule interleaving is C04's Sched model); which of CV / pump shut-off / tank limit "
-        "holds a commanded-open link closed is accepted from the link's type and the adjacent tank levels, not re-derived",
+        "holds a commanded-open link closed is accepted from the link's type and the adjacent tank levels, not re-derived A threshold crossed in the first step of a paused-and-continued run (same simulator, duration raised) must still be met by a partial step and take effect in that row (simulation oracle, keys threshold-*-after-pause; the Lean model covers one run_sim call).",
         technique="Lean 4 proof over hand-written model + ast translator (Gen/TankShape.lean: update_tank_heads, _interp_extrapolate, Tank.get_volume, backtrack block of TankLevelCondition.evaluate, _run_postsolve_controls, _internal_status writers; Lemmas/TankShape.lean: the interpreted skeletons ARE the model) + differential run (in-process wrapping) + Lean-evaluated oracles on real results",
     )
     rule = (
